@@ -96,6 +96,27 @@ def eval_redefine(args):
     return out
 
 
+def eval_seq_over_choice(ver):
+    """a sequence over SOME branches of a three-branch choice as its restriction (the branch left out carries the largest bound, or the smallest): every accepted pair is checked
+    for language inclusion, through the validator itself"""
+    import xmlschema
+    n = 0; wid = []
+    for occs in itertools.product([(1, 1), (0, 1), (0, 5), (1, None), (2, 2)], repeat=3):
+        for go in ((1, 1), (1, 2), (0, None)):
+            base = ('cho', [('e', 'a', occs[0]), ('e', 'b', occs[1]), ('e', 'c', occs[2])], go)
+            if not cm.upa_ok(base, '1.0'): continue
+            LB = {w for w in WORDS if cm.in_language(base, w)}
+            for pick in (('a', 'b'), ('b', 'c'), ('a', 'c'), ('b', 'a')):
+                for po in ((1, 1), (0, 1)):
+                    der = ('seq', [('e', p_, po) for p_ in pick], (1, 1)); n += 1
+                    try: s = _cls(ver)(schema_text(base, der))
+                    except xmlschema.XMLSchemaException: continue
+                    bad = [w for w in WORDS if w not in LB and cm.in_language(der, w)]
+                    if bad and s.is_valid(cm.doc(bad[0], 'd')) and not s.is_valid(cm.doc(bad[0], 'b')):
+                        wid.append(dict(key=f'seqcho:{ver}|{cm.show(base)}|{cm.show(der)}', base=base, der_model=der, word=bad[0]))
+    return n, wid
+
+
 def run(tier, seed, open_findings):
     bases = [m for i, m in enumerate(cm.two_level_models()) if i % 12 == 0]
     sel, exhaustive = part(bases, tier, seed, 5)
@@ -114,6 +135,14 @@ def run(tier, seed, open_findings):
                   exhaustive=exhaustive, known={'C14-model-restriction-widens': nk} if nk else {}, distinct=acc,
                   samples=[dict(base=cm.show(sel[0]), candidates=[cm.show(d) for d in itertools.islice(edits(sel[0]), 3)])] if sel else [],
                   notes=f'{acc} candidate restrictions were accepted by the builder and checked for language inclusion')]
+    sf = []; sk = 0; sn = 0
+    for ver, (n_, wid) in zip(('1.0', '1.1'), pmap(eval_seq_over_choice, ['1.0', '1.1'], chunk=1)):
+        sn += n_
+        for w in wid:
+            if w['key'] in known and 'C14-model-restriction-widens' in open_findings: sk += 1; continue
+            sf.append(dict(case=dict(seq_over_choice=w['key'], version=ver), observed=f"restriction {cm.show(w['der_model'])} of {cm.show(w['base'])} accepted although it admits {w['word']!r}", required='accepted restriction => L(derived) subset of L(base)'))
+    out.append(result('C14.sequence_over_some_branches_of_a_choice', '375 three-branch choices (5 bounds per branch, 3 bounds of the choice) x 8 sequences over two of the branches x 2 classes, words <= 5', sn, sf, exhaustive=True,
+                      known={'C14-model-restriction-widens': sk} if sk else {}))
     pbases = [m for m in bases if m[0] in ('seq', 'cho') and tuple(m[2]) == (1, 1)]
     rsel, rex = part(pbases, tier, seed + 1, 2)
     rjobs = [(m, ver) for m in rsel for ver in ('1.0', '1.1')]
@@ -135,6 +164,9 @@ def run(tier, seed, open_findings):
 
 
 def replay(check_name, case):
+    if case.get('seq_over_choice'):
+        mine = [w for w in eval_seq_over_choice(case['version'])[1] if w['key'] == case['seq_over_choice']]
+        return dict(ok=not mine, observed=[dict(word=w['word']) for w in mine][:1], required='accepted restriction => L(derived) subset of L(base)')
     if check_name not in ('C14.model_restrictions', 'C14.redefined_groups'):
         from . import C14_facets
         return C14_facets.replay(check_name, case)
